@@ -10,6 +10,7 @@
   `kst` its new contents; the new latest height is `h' := kst.last`.
 -/
 import DymVerif.Lemmas.CoreForkQuiet
+import DymVerif.Lemmas.CoreForkFin
 namespace DymVerif.C03
 open DymVerif DymVerif.Core DymVerif.Core.Fork
 
@@ -121,6 +122,36 @@ theorem fork_refused_finalized (s : St) (ra lv i : Nat) (r : Rollapp) (st : SInf
     unfold hardFork; rw [hg]
     dsimp only
     rw [if_neg (by simp; omega), if_neg hn, hplan]
+
+/-- **A fork below any finalized height is refused** — full form, given that finalized states form
+    a prefix of the recorded states (`FinPrefix`; an invariant of every reachable state, it is C02's
+    "finalization proceeds in index order").  If some finalized state has a height above the last
+    valid height, the fork is refused, wherever the fork height itself falls. -/
+theorem fork_refused_if_finalized_above (s : St) (ra lv j : Nat) (r : Rollapp) (x : SInfo) (hc : Chain r.states)
+    (hfp : FinPrefix r.states) (hg : getRa s ra = some r) (hx : r.states[j]? = some x)
+    (hxf : x.finalized = true) (hlv : lv < x.last) : ∃ e, hardFork s ra lv = .error e := by
+  cases h : hardFork s ra lv with
+  | error e => exact ⟨e, rfl⟩
+  | ok s' =>
+    exfalso
+    obtain ⟨r1, keep, kst, hg1, _, _, _, hplan, _⟩ := hardFork_ok_elim h
+    rw [hg] at hg1; injection hg1 with hg1; subst hg1
+    obtain ⟨st, l, ps⟩ := revertPlan_spec hc hplan
+    have h1 := ps.no_finalized_above hc hfp j x hx hxf
+    have h2 := ps.h_min
+    have h3 := Nat.mod_le (lv + 1) (2 ^ 64)
+    generalize (lv + 1) % 2 ^ 64 = n at *
+    omega
+
+/-- … and, the other way round, an accepted fork removes and truncates unfinalized states only: every
+    removed state was unfinalized and every finalized state lies entirely at or below h'. -/
+theorem fork_touches_no_finalized_state (s s' : St) (ra lv keep : Nat) (r : Rollapp) (kst : SInfo)
+    (hc : Chain r.states) (hfp : FinPrefix r.states) (_hg : getRa s ra = some r)
+    (hplan : revertPlan r ((lv + 1) % 2 ^ 64) = .ok (keep, kst)) (_e : hardFork s ra lv = .ok s') :
+    (∀ (j : Nat) (x : SInfo), keep ≤ j → r.states[j]? = some x → x.finalized = false) ∧
+    (∀ (j : Nat) (x : SInfo), r.states[j]? = some x → x.finalized = true → x.last ≤ kst.last) := by
+  obtain ⟨st, l, ps⟩ := revertPlan_spec hc hplan
+  exact ⟨ps.removed_unfin hc hfp, ps.no_finalized_above hc hfp⟩
 
 /-- a fraud proposal naming a wrong revision for the fraud height is refused -/
 theorem fraud_refused_wrong_revision (s : St) (ra h rev : Nat) (pun rw : Option Addr) (r : Rollapp)
@@ -615,10 +646,26 @@ example : exStates exFork9 = [[(1, 3, 1), (4, 3, 1)], [(1, 2, 3)]] ∧
     exRevs exFork9 = [[(0, 0), (1, 7)], [(0, 0)]] ∧ exProposers exFork9 = [none, some 3] ∧
     exQueue exFork9 = [(1, 0, [1, 2]), (1, 1, [1])] ∧
     exFork9.seqH = [(1, 1), (1, 2), (1, 3), (1, 4), (1, 5), (1, 6), (3, 1), (3, 2)] := by decide
--- refusals: wrong revision, first height of the first state, before the genesis bridge (rollapp 1)
+-- obsolete marking of DRS version 1 (used by both rollapps): rollapp 0 is forked to its latest height
+-- (nothing removed, revision 1 starts at 7); rollapp 1 has no genesis bridge, its fork is dropped
+def exObs : St := run exParams (exPre ++ [.obsolete true [1]])
+example : exStates exObs = [[(1, 3, 1), (4, 3, 1)], [(1, 2, 3)]] ∧
+    exRevs exObs = [[(0, 0), (1, 7)], [(0, 0)]] ∧ exProposers exObs = [none, some 3] ∧
+    exQueue exObs = [(1, 0, [1, 2]), (1, 1, [1])] ∧
+    exObs.seqH = [(1, 1), (1, 2), (1, 3), (1, 4), (1, 5), (1, 6), (3, 1), (3, 2)] ∧ exObs.obsolete = [1] := by decide
+-- refusals: wrong revision; last valid height below the genesis-bridge height; genesis bridge not done (rollapp 1)
 example : (step (run exParams exPre) (.fraud true 0 5 1 none none)).2 = some .wrongRevision := by decide
 example : (step (run exParams exPre) (.fraud true 0 1 0 none none)).2 = some .forkNotAllowed := by decide
 example : (step (run exParams exPre) (.fraud true 1 2 0 none none)).2 = some .forkNotAllowed := by decide
+-- refusal: the fork height lies in a finalized state (two blocks later both states of rollapp 0 are final)
+def exFin : St := run exParams (exPre ++ [.begin_ 1, .begin_ 1, .end_ []])
+example : (exFin.ras.map fun r => r.states.map (·.finalized)) = [[true, true], [true]] ∧ exFin.seqH = [] ∧
+    (step exFin (.fraud true 0 5 0 none none)).2 = some .finalizedHeight ∧
+    (step exFin (.fraud true 0 9 0 none none)).2 = none := by decide
+-- refusals: first height of the first recorded state (no previous state to keep); below the first recorded height
+def exLate : St := run exParams [.createRollapp 0 9 10, .fund 1 100, .createSeq 1 0 10 true, exUpd 0 1 3 2 0, .bridge 0 1]
+example : (step exLate (.fraud true 0 3 0 none none)).2 = some .noState ∧
+    (step exLate (.fraud true 0 2 0 none none)).2 = some .internal := by decide
 -- after the fork at 5 and the election of sequencer 2: only start 5 / revision 1 is accepted
 example : (step (run exParams (exPre ++ [.fraud true 0 5 0 none none, .optIn 2 true])) (exUpd 0 2 5 1 1)).2 = none := by decide
 example : (step (run exParams (exPre ++ [.fraud true 0 5 0 none none, .optIn 2 true])) (exUpd 0 2 5 1 0)).2 = some .wrongRevision := by decide
